@@ -43,6 +43,8 @@ type Engine struct {
 	pmCache map[*ssa.Function]*ssa.Function
 
 	solverArgv []string
+	samples    int
+	seed       int
 	dumpDir    string
 	loadNotes  []string
 }
@@ -227,6 +229,21 @@ type HarnessRun struct {
 	Solver    SolverStats
 	MaxPaths  int
 	Truncated bool
+	SampleTapes [][]interface{} // models of completed paths, for translator validation
+	sampleSeen  int
+}
+
+// wantSample: reservoir-free spread - take the 1st, 2nd, 4th, 8th ... completed path
+// (shifted by the seed) until the quota is reached.
+func (h *HarnessRun) wantSample(quota, seed int) bool {
+	h.mu.Lock()
+	defer h.mu.Unlock()
+	h.sampleSeen++
+	if len(h.SampleTapes) >= quota {
+		return false
+	}
+	n := h.sampleSeen + seed%7
+	return n&(n-1) == 0 || n%977 == 0
 }
 
 func (h *HarnessRun) noteAssert(label string) {
@@ -381,7 +398,7 @@ func mergeStats(a, b *SolverStats) {
 func (e *Engine) execPath(w *Worker, h *HarnessRun, prefix []int) (newTasks [][]int) {
 	x := &Exec{eng: e, w: w, ts: w.ts, sol: w.sol, h: h, prefix: prefix,
 		globals: map[*ssa.Global]*Value{}, covers: map[string]bool{}, side: map[string]Value{}, funcs: map[*ssa.Function]int{}, lit: map[*Term]bool{}}
-	w.sol.record = e.dumpDir != ""
+	w.sol.record = e.dumpDir != "" || os.Getenv("SYMGO_DUMP_UNKNOWN") != "" || os.Getenv("SYMGO_DUMP_SLOW") != ""
 	w.sol.script = w.sol.script[:0]
 	w.sol.Push()
 	outcome := "completed"
@@ -423,14 +440,31 @@ func (e *Engine) execPath(w *Worker, h *HarnessRun, prefix []int) (newTasks [][]
 		x.runInits()
 		x.callFunction(h.Fn, nil, nil)
 		// the completed path must be feasible: the solver confirms its path condition
+		sat := true
 		if len(x.pc) > 0 {
 			switch x.sol.Check("path-feasible") {
 			case "unsat":
 				outcome = "infeasible"
+				sat = false
 			case "sat":
 			default:
 				x.unknowns++
+				sat = false
 			}
+		}
+		// translator validation: keep the model of a sample of completed paths; the
+		// same inputs are later run natively and must pass there as well
+		if sat && e.samples > 0 && h.wantSample(e.samples, e.seed) {
+			var m map[string]uint64
+			if len(x.pc) > 0 {
+				m = x.sol.Values(x.ts, x.vars)
+			}
+			tape := x.dumpTape(m)
+			h.mu.Lock()
+			if len(h.SampleTapes) < e.samples {
+				h.SampleTapes = append(h.SampleTapes, tape)
+			}
+			h.mu.Unlock()
 		}
 	}()
 	w.sol.PopTo(0)
